@@ -40,7 +40,10 @@ class ExprMixin:
             if all(isinstance(a, str) for a in v.atoms): return z3.BoolVal(len(v.atoms) > 0)
             if any(isinstance(a, str) or a[0] in ('int', 'real') for a in v.atoms): return z3.BoolVal(True)
             raise Undecided('truthiness of opaque string')
-        if isinstance(v, (VEnum, VObj, VExt, VDict)): return z3.BoolVal(True)
+        if isinstance(v, (VEnum, VEnumSym, VObj, VExt, VDict)): return z3.BoolVal(True)
+        if isinstance(v, VPy):
+            return z3.Or(z3.And(Py.is_pint(v.t), Py.i(v.t) != 0), Py.is_plist(v.t))
+        if isinstance(v, VUnion): return z3.Or(*[z3.And(c, self.truthy(x)) for c, x in v.alts])
         raise Undecided('truthiness of %r' % (v,))
 
     def num(self, v, what, path, line):
@@ -54,6 +57,9 @@ class ExprMixin:
         if isinstance(v, VOptR):
             self.vc('no-raise/%s-None@%d' % (what, line), path, OptR.is_some(v.t), line=line)
             return OptR.v(v.t), True
+        if isinstance(v, VPy):
+            self.vc('no-raise/%s-non-int@%d' % (what, line), path, Py.is_pint(v.t), line=line)
+            return Py.i(v.t), False
         if isinstance(v, VNone):
             self.vc('no-raise/%s-None@%d' % (what, line), path, z3.BoolVal(False), line=line)
             return fresh('undef', I), False
@@ -99,7 +105,10 @@ class ExprMixin:
         raise Undecided('constant %r' % (v,))
 
     def ev_Name(self, e, p):
-        if e.id in p.env: return p.env[e.id]
+        if e.id in p.env:
+            bound = p.ghost.get('unbound:' + e.id)
+            if bound is not None: self.vc('no-raise/unbound-local-%s@%d' % (e.id, e.lineno), p, bound, line=e.lineno)
+            return p.env[e.id]
         if e.id in self.globals: return self.globals[e.id]
         if e.id in self.repo.enums: return VExt('enumclass', e.id)
         if e.id in ('list', 'int', 'str', 'float'): return VExt('type', e.id)
@@ -148,12 +157,16 @@ class ExprMixin:
     def merge(self, c, a, b):
         if z3.is_true(c): return a
         if z3.is_false(c): return b
+        if isinstance(a, VNone) and isinstance(b, VNone): return a
         if isinstance(a, VInt) and isinstance(b, VInt): return VInt(z3.If(c, a.t, b.t))
         if isinstance(a, VBool) and isinstance(b, VBool): return VBool(z3.If(c, a.t, b.t))
         if isinstance(a, VReal) or isinstance(b, VReal):
             return VReal(z3.If(c, self.toreal(a), self.toreal(b)))
         if isinstance(a, VRef) and isinstance(b, VRef): return VRef(z3.If(c, a.t, b.t))
-        if isinstance(a, VOpt) or isinstance(b, VOpt) or isinstance(a, VNone) or isinstance(b, VNone):
+        if isinstance(a, VPy) or isinstance(b, VPy):
+            if isinstance(a, (VPy, VNone, VInt, VOpt)) and isinstance(b, (VPy, VNone, VInt, VOpt)):
+                return VPy(z3.If(c, self.topy(a), self.topy(b)))
+        if (isinstance(a, (VOpt, VNone, VInt)) and isinstance(b, (VOpt, VNone, VInt))) and (isinstance(a, (VOpt, VNone)) or isinstance(b, (VOpt, VNone))):
             return VOpt(z3.If(c, self.toopt(a), self.toopt(b)))
         if isinstance(a, VStr) and isinstance(b, VStr):
             if a.atoms == b.atoms: return a
@@ -162,8 +175,71 @@ class ExprMixin:
             return VList(z3.If(c, a.len, b.len), z3.If(c, a.arr, b.arr), a.kind)
         if isinstance(a, VTuple) and isinstance(b, VTuple) and len(a.items) == len(b.items):
             return VTuple([self.merge(c, x, y) for x, y in zip(a.items, b.items)])
+        if isinstance(a, VCList) and isinstance(b, VCList):
+            if len(a.items) != len(b.items): raise Undecided('cannot merge concrete lists of different lengths')
+            return VCList([x if x is y else self.merge(c, x, y) for x, y in zip(a.items, b.items)])
+        if a is b: return a
         if isinstance(a, VLpVar) and isinstance(b, VLpVar): return VLpVar(z3.If(c, a.t, b.t))
+        if isinstance(a, (VEnum, VEnumSym)) and isinstance(b, (VEnum, VEnumSym)) and a.cls == b.cls:
+            if isinstance(a, VEnum) and isinstance(b, VEnum) and a == b: return a
+            code = lambda x: z3.IntVal(self.repo.enums[x.cls][x.name]) if isinstance(x, VEnum) else x.t
+            return VEnumSym(a.cls, z3.If(c, code(a), code(b)))
+        if isinstance(a, VUnion) or isinstance(b, VUnion) or type(a) != type(b):
+            alts = []
+            for cond, v in ((c, a), (z3.Not(c), b)):
+                if isinstance(v, VUnion): alts += [(z3.And(cond, cc), x) for cc, x in v.alts]
+                else: alts.append((cond, v))
+            return self.compress_union(alts)
         raise Undecided('cannot merge %r / %r' % (a, b))
+
+    def compress_union(self, alts):
+        """Merge alternatives of the same shape; what remains are alternatives of genuinely different Python types."""
+        groups = []
+        for cond, v in alts:
+            for g in groups:
+                w = g[1]
+                same = (type(w) == type(v) and not isinstance(v, (VTuple, VCList))) or \
+                       (isinstance(v, VTuple) and isinstance(w, VTuple) and len(v.items) == len(w.items)) or \
+                       (isinstance(v, (VPy, VNone)) and isinstance(w, (VPy, VNone))) or \
+                       (isinstance(v, (VEnum, VEnumSym)) and isinstance(w, (VEnum, VEnumSym)))
+                if same:
+                    try:
+                        g[1] = self.merge(cond, v, w); g[0] = z3.Or(g[0], cond); break
+                    except Undecided: continue
+            else:
+                groups.append([cond, v])
+        if len(groups) == 1 and alts and z3.is_true(z3.simplify(z3.Or(*[c for c, _ in alts]))): return groups[0][1]
+        if len(groups) == 1 and len(alts) == 1: return VUnion([(alts[0][0], alts[0][1])]) if not z3.is_true(alts[0][0]) else alts[0][1]
+        return VUnion([(z3.simplify(c), v) for c, v in groups])
+
+    def topy(self, v):
+        if isinstance(v, VPy): return v.t
+        if isinstance(v, VNone): return Py.pnone
+        if isinstance(v, VInt): return Py.pint(v.t)
+        if isinstance(v, VOpt): return z3.If(Opt.is_none(v.t), Py.pnone, Py.pint(Opt.v(v.t)))
+        if isinstance(v, VCList) and v.items and all(isinstance(x, VInt) for x in v.items):
+            out = empty_list('int')
+            for x in v.items[1:]: out = VList(out.len + 1, z3.Store(out.arr, out.len, x.t), 'int')
+            return Py.plist(v.items[0].t, out.term())
+        raise Undecided('topy %r' % (v,))
+
+    def py_index(self, b, i, p, line):
+        L = list_sort('int'); tl = Py.tail(b.t)
+        self.vc('no-raise/subscript-non-list@%d' % line, p, Py.is_plist(b.t), line=line)
+        n = 1 + L.len(tl)
+        j = i.t if self.spec_mode else self.norm_index(n, i.t, p, line)
+        return VInt(z3.If(j == 0, Py.head(b.t), z3.Select(L.arr(tl), j - 1)))
+
+    def py_slice(self, b, c, p, line):
+        L = list_sort('int'); tl = Py.tail(b.t)
+        self.vc('no-raise/subscript-non-list@%d' % line, p, Py.is_plist(b.t), line=line)
+        if c != 1: raise Undecided('slice [%d:] of an argument list' % c)
+        return VList(L.len(tl), L.arr(tl), 'int')
+
+    def py_len(self, v, p, line):
+        L = list_sort('int')
+        self.vc('no-raise/len-of-non-list@%d' % line, p, Py.is_plist(v.t), line=line)
+        return VInt(1 + L.len(Py.tail(v.t)))
 
     def toreal(self, v):
         if isinstance(v, VReal): return v.t
@@ -215,6 +291,8 @@ class ExprMixin:
         return {ast.Lt: a < b, ast.LtE: a <= b, ast.Gt: a > b, ast.GtE: a >= b}[type(op)]
 
     def equal(self, l, r, p, line):
+        if isinstance(l, VUnion): return z3.Or(*[z3.And(c, self.equal(x, r, p, line)) for c, x in l.alts])
+        if isinstance(r, VUnion): return z3.Or(*[z3.And(c, self.equal(l, x, p, line)) for c, x in r.alts])
         if isinstance(r, VNone) and not isinstance(l, VNone): l, r = r, l
         if isinstance(l, VNone):
             if isinstance(r, VNone): return z3.BoolVal(True)
@@ -222,6 +300,10 @@ class ExprMixin:
             if isinstance(r, VOpt): return Opt.is_none(r.t)
             if isinstance(r, VOptR): return OptR.is_none(r.t)
             if isinstance(r, VPy): return Py.is_pnone(r.t)
+            return z3.BoolVal(False)
+        if isinstance(l, VPy) or isinstance(r, VPy):
+            if isinstance(l, (VPy, VInt, VOpt, VNone, VCList)) and isinstance(r, (VPy, VInt, VOpt, VNone, VCList)):
+                return self.topy(l) == self.topy(r)
             return z3.BoolVal(False)
         if isinstance(l, VEnum) and isinstance(r, VEnum): return z3.BoolVal(l == r)
         if isinstance(l, VEnumSym) and isinstance(r, VEnum): l, r = r, l
@@ -248,9 +330,7 @@ class ExprMixin:
             return z3.And(*[self.equal(x, y, p, line) for x, y in zip(l.items, r.items)]) if l.items else z3.BoolVal(True)
         if isinstance(l, VTok) and isinstance(r, VTok): return l.t == r.t
         if isinstance(l, VList) and isinstance(r, VList) and self.spec_mode and l.kind == r.kind:
-            j = fresh('eqj', I)
-            return z3.And(l.len == r.len, z3.ForAll([j], z3.Implies(z3.And(0 <= j, j < l.len),
-                                                                      z3.Select(l.arr, j) == z3.Select(r.arr, j))))
+            return l.term() == r.term()        # identity of (length, array): stronger than element-wise equality, used consistently
         if type(l) != type(r) and isinstance(l, (VInt, VStr, VTuple, VEnum, VCList, VList)) and \
                 isinstance(r, (VInt, VStr, VTuple, VEnum, VCList, VList)):
             return z3.BoolVal(False)          # different Python types never compare equal (int/str/tuple/list/enum)
@@ -333,7 +413,9 @@ class ExprMixin:
     def list_repeat(self, lst, n, p, line):
         if len(lst.items) != 1: raise Undecided('[a, b] * n')
         x = lst.items[0]
-        if z3.is_int_value(n.t) and isinstance(x, (VTuple, VCList, VObj)): raise Undecided('[mutable] * n')
+        if z3.is_int_value(n.t) and isinstance(x, (VCList, VObj, VList)): raise Undecided('[mutable] * n')
+        if z3.is_int_value(n.t) and 0 <= n.t.as_long() <= 64 and not self.contract.get('symbolic_repeat'):
+            return VCList([x] * n.t.as_long())
         ln = z3.If(n.t >= 0, n.t, 0)
         if isinstance(x, VInt): return VList(ln, z3.K(I, x.t), 'int')
         if isinstance(x, VReal): return VList(ln, z3.K(I, x.t), 'real')
@@ -383,7 +465,9 @@ class ExprMixin:
                 raise Undecided('constant index out of range')
             if not self.spec_mode:
                 self.vc('no-raise/index@%d' % line, p, z3.And(i.t >= -n, i.t < n), line=line)
-            if n == 0: raise Undecided('index into empty list')
+            if n == 0:
+                if self.spec_mode: return VUnion([])       # no such element: every comparison with it is false
+                raise Undecided('index into empty list')
             j = z3.If(i.t >= 0, i.t, i.t + n)
             out = b.items[n - 1]
             for c in range(n - 2, -1, -1): out = self.merge(j == c, b.items[c], out)
@@ -392,6 +476,18 @@ class ExprMixin:
             self.vc('no-raise/subscript-None@%d' % line, p, z3.BoolVal(False), line=line)
             raise Undecided('subscript of None')
         if isinstance(b, VPy): return self.py_index(b, i, p, line)
+        if isinstance(b, VUnion):
+            alts = []
+            for c, x in b.alts:
+                if isinstance(x, (VTuple, VCList, VList, VPy)):
+                    self.guards.append(c)
+                    try: alts.append((c, self.index(x, i, p, line)))
+                    finally: self.guards.pop()
+                else: self.vc('no-raise/subscript-of-%s@%d' % (type(x).__name__, line), p, z3.Not(c), line=line)
+            if not alts:
+                if self.spec_mode: return VUnion([])
+                raise Undecided('subscript of union without subscriptable alternative')
+            return self.compress_union(alts)
         raise Undecided('subscript of %r at line %d' % (b, line))
 
     def slice(self, b, s, p, line):
